@@ -104,7 +104,10 @@ def random_det_model(rng, closed=False, ns=None, nparams=None, positive=False):
     return gen.Defn(sy, [], procs), theta, x0, tend
 
 
-def time_grid(rng, tend, uniform=None):
+def time_grid(rng, tend, uniform=None, special=None):
+    """grid[0] is the initial time, grid[1:] the requested times.  special: 'origin' -- the first requested time IS the
+    initial time (the whole linspace(t0, T, n) handed over, as the package's own examples do); 'repeat' -- one requested
+    time occurs twice"""
     npts = rng.randint(4, 10)
     if uniform is None:
         uniform = rng.random() < 0.5
@@ -112,6 +115,11 @@ def time_grid(rng, tend, uniform=None):
         g = np.linspace(0.0, tend, npts)
     else:
         g = np.concatenate([[0.0], np.sort(np.array([rng.uniform(0.02 * tend, tend) for _ in range(npts - 1)]))])
+    if special == "origin":
+        g = np.concatenate([[g[0]], g])
+    elif special == "repeat":
+        k = rng.randint(1, len(g) - 1)
+        g = np.concatenate([g[:k + 1], g[k:]])
     return g
 
 
@@ -138,6 +146,75 @@ class StepRecorder:
         ode_utils._integrateOneStep = self.orig
 
 
+class SetupRecorder:
+    """what the integrator is set up with: the right-hand side and Jacobian callables handed to scipy
+    (odeint: Dfun with col_deriv; scipy.integrate.ode: jac(t, y)) evaluated at the initial point"""
+
+    def __init__(self):
+        self.info = None
+
+    def install(self):
+        import scipy.integrate
+        self.sci = scipy.integrate
+        self.orig_odeint = scipy.integrate.odeint
+        self.orig_setup = ode_utils._setupIntegrator
+        rec = self
+
+        def odeint(func, y0, t, *a, **kw):
+            if rec.info is None:
+                try:
+                    y = np.array(y0, float)
+                    t0 = float(np.asarray(t, float)[0])
+                    f = np.asarray(func(y, t0), float).reshape(-1)
+                    J = None if kw.get("Dfun") is None else np.asarray(kw["Dfun"](y, t0), float)
+                    rec.info = {"kind": "odeint", "f": f, "J": J, "col_deriv": bool(kw.get("col_deriv", False))}
+                except Exception as ex:
+                    rec.info = {"kind": "odeint", "error": repr(ex)[:200]}
+            return rec.orig_odeint(func, y0, t, *a, **kw)
+
+        def setup(func, jac, x0, t0, args, method, nsteps):
+            if rec.info is None:
+                try:
+                    y = np.array(x0, float)
+                    f = np.asarray(func(float(t0), y, *args), float).reshape(-1)
+                    J = None if jac is None else np.asarray(jac(float(t0), y, *args), float)
+                    rec.info = {"kind": "ode", "f": f, "J": J, "col_deriv": False}
+                except Exception as ex:
+                    rec.info = {"kind": "ode", "error": repr(ex)[:200]}
+            return rec.orig_setup(func, jac, x0, t0, args, method, nsteps)
+        scipy.integrate.odeint = odeint
+        ode_utils._setupIntegrator = setup
+
+    def remove(self):
+        self.sci.odeint = self.orig_odeint
+        ode_utils._setupIntegrator = self.orig_setup
+
+
+def judge_setup(info, f_ref, J_ref):
+    """compare what the integrator was set up with to the specification's f and df/dx at the initial point"""
+    if info is None:
+        return {"rhs": "none", "jac": "none"}
+    if "error" in info:
+        return {"rhs": "error", "jac": "error", "detail": info["error"]}
+    tol = lambda a: 1e-9 * (1.0 + float(np.max(np.abs(a)))) if a.size else 1e-9
+    out = {}
+    f = info["f"]
+    out["rhs"] = "ok" if f.shape == f_ref.shape and np.all(np.abs(f - f_ref) <= tol(f_ref)) else "wrong"
+    J = info["J"]
+    if J is None:
+        out["jac"] = "none"
+    else:
+        J = J.reshape(J_ref.shape) if J.size == J_ref.size else J
+        want = J_ref.T if info.get("col_deriv") else J_ref
+        if J.shape == want.shape and np.all(np.abs(J - want) <= tol(J_ref)):
+            out["jac"] = "ok"
+        elif J.shape == want.shape and np.all(np.abs(J - want.T) <= tol(J_ref)):
+            out["jac"] = "transposed"
+        else:
+            out["jac"] = "wrong"
+    return out
+
+
 def entry_calls(rng, quick):
     """the configurations exercised on one model"""
     calls = [("integrate", "odeint", fo, True) for fo in (False, True)]
@@ -159,6 +236,9 @@ def perform_call(m, entry, method, full_output, include_origin, x0, grid):
     """returns (rows returned as 2-d array, step snapshots, error)"""
     rec = StepRecorder()
     rec.install()
+    srec = SetupRecorder()
+    srec.install()
+    perform_call.last_setup = None
     try:
         m.initial_values = (np.array(x0, float), float(grid[0]))
         if entry == "integrate":
@@ -175,7 +255,9 @@ def perform_call(m, entry, method, full_output, include_origin, x0, grid):
     except Exception as ex:
         return None, rec.snaps, repr(ex)[:300]
     finally:
+        srec.remove()
         rec.remove()
+        perform_call.last_setup = srec.info
 
 
 def scale_for(ref):
@@ -184,13 +266,15 @@ def scale_for(ref):
     return 10 ** int(math.floor(math.log10((2 ** 30) / mx)))
 
 
-def to_call_trace(entry, method, full_output, include_origin, ref, sol, snaps, closed, rel_tol):
+def to_call_trace(entry, method, full_output, include_origin, ref, sol, snaps, closed, rel_tol, setup=None):
     """ref: (nt+1, ns) reference rows incl. origin; returns trace dict"""
     S = min(scale_for(ref), 10 ** 8)
     tol = rel_tol * (1.0 + float(np.max(np.abs(ref))))
     sc = lambda a: [[int(round(float(v) * S)) for v in row] for row in np.atleast_2d(a)]
     nt = ref.shape[0] - 1
     events = []
+    if setup is not None:
+        events.append({"ev": "Setup", "rhs": setup["rhs"], "jac": setup["jac"]})
     if method == "odeint":
         events.append({"ev": "Odeint"})
     else:
